@@ -884,6 +884,8 @@ pub fn play_big_response(r: &mut Report, lab: &dyn Lab, rng: &mut Rng, id: &str,
     }
     body.truncate(n);
     let q = ReqSpec { xid: format!("{}.0", id), method: "POST", target: Target::Echo, conn: Some("close".into()), version: "HTTP/1.1", body: Some(body.clone()) };
+    // rendered before connecting: on the timeout app the first byte has to follow the connect promptly
+    let wire = q.render();
     let mut c = match Conn::open(addr) {
         Ok(c) => c,
         Err(e) => {
@@ -891,9 +893,23 @@ pub fn play_big_response(r: &mut Report, lab: &dyn Lab, rng: &mut Rng, id: &str,
             return;
         }
     };
+    let t_connected = Instant::now();
     let ex = J::obj(vec![("body_bytes", J::u(n as u64)), ("client_stalls_ms_before_reading", J::u(stall_ms)), ("app_connection_timeout_ms", if on_timeout_app { J::u(TIMEOUT_MS) } else { J::Null }), ("runtime", J::s(lab.runtime()))]);
-    if c.s.write_all(&q.render()).is_err() {
-        r.inconclusive("could not send a large request");
+    let gap_before_first_byte = t_connected.elapsed();
+    if let Err(e) = c.s.write_all(&wire) {
+        // the server hung up while the request was still being written: whatever it said (or did not say) is the observation
+        let said = match c.read_response(Duration::from_secs(2)) {
+            Ok(Some(m)) => format!("a {} response", m.status()),
+            Ok(None) => format!("nothing (eof={}, reset={})", c.eof, c.reset),
+            Err(x) => format!("an incomplete response ({})", x.chars().take(60).collect::<String>()),
+        };
+        if on_timeout_app && (said.contains("408") || gap_before_first_byte > Duration::from_millis(100)) {
+            // the harness client itself was slower than the app's timeout between connect and first byte (loaded machine):
+            // the 408 is the documented answer, nothing to judge
+            r.count("big_requests_discarded_client_slower_than_timeout", 1);
+            return;
+        }
+        r.violation("C01/big-request:connection-lost", format!("[{}] the server closed the connection while a well-formed {}-byte POST was still being sent ({}); it answered {}{}", lab.runtime(), n, e, said, if on_timeout_app { format!("; app with a {} ms connection timeout", TIMEOUT_MS) } else { String::new() }), ex, replay.to_vec());
         return;
     }
     std::thread::sleep(Duration::from_millis(stall_ms));
